@@ -208,6 +208,9 @@ func (sc *StateContext) AddTransfer(t *state.Transfer) error {
 	if !encryption.IsHash(t.ToClientID) {
 		return errors.New("invalid transaction ToClientID")
 	}
+	if t.ClientID != sc.txn.ClientID && t.ClientID != sc.txn.ToClientID {
+		return state.ErrInvalidTransfer
+	}
 	sc.transfers = append(sc.transfers, t)
 
 	return nil
